@@ -196,6 +196,8 @@ def generic_rules(res, hist, allow_exc=(), allow_blocked=(), key=""):
             V.append(v("unexpected-exception", f"{op[0]};{r[1]}", f"actor {aid} op {oi} {op[:3]}: {r[1]}: {r[2][:300]}"))
     if res.setup_error is not None:
         V.append(v("setup-failed", res.setup_error[1], res.setup_error[2]))
+    from vsim import gwsim as _g
+    V += _g.livelock_violation(res, key)
     return V
 
 
